@@ -190,6 +190,24 @@ func checkTable(c *core.Ctx, t rtable, seqLen int) {
 		}
 		sc := scenario{Table: t.String(), Seq: seq}
 		for _, req := range seq {
+			if strings.HasPrefix(req, "!") {
+				// Drop() through the store opened for this request: the whole database goes, with every table
+				// and the table records in it; every store opened in that database is gone
+				o := find(req[1:])
+				if o == nil || o.route.NoDrop {
+					return // not applicable
+				}
+				o.st.Drop()
+				var keep []opened
+				for _, x := range ok {
+					if !(x.route.Type == o.route.Type && x.route.Name == o.route.Name) {
+						keep = append(keep, x)
+					}
+				}
+				ok = keep
+				c.Count("drops", 1)
+				continue
+			}
 			route := p.RouteOf(req)
 			st, err := p.OpenDB(req)
 			if prev := find(req); prev != nil {
@@ -321,6 +339,19 @@ func checkTable(c *core.Ctx, t rtable, seqLen int) {
 		}
 	}
 	rec(nil)
+	// open, drop, re-open, then every second request (and the permutations with the second request first)
+	for _, x := range probes {
+		for _, y := range probes {
+			if c.Violations() > 0 {
+				return
+			}
+			run([]string{x, "!" + x, x, y})
+			run([]string{x, "!" + x, y, x})
+			if x != y {
+				run([]string{y, x, "!" + x, x, y})
+			}
+		}
+	}
 }
 
 type edited struct {
